@@ -289,7 +289,7 @@ func (e *Env) funcTestValue(n *Node, idx int, ts TestSpec) z.Test {
 		msg := o.Msg
 		t.IssueFmtFunc = func(is *z.ZogIssue, ctx z.Ctx) { is.SetMessage(msg) }
 	}
-	if o.MsgFunc != "" {
+	if o.MsgFunc != "" && !(o.Msg != "" && o.MsgLast) {
 		marker := o.MsgFunc
 		t.IssueFmtFunc = func(is *z.ZogIssue, ctx z.Ctx) { is.SetMessage(marker) }
 	}
@@ -298,12 +298,15 @@ func (e *Env) funcTestValue(n *Node, idx int, ts TestSpec) z.Test {
 
 func (e *Env) opts(o Opts) []z.TestOption {
 	var out []z.TestOption
-	if o.Msg != "" {
+	if o.Msg != "" && !o.MsgLast {
 		out = append(out, z.Message(o.Msg))
 	}
 	if o.MsgFunc != "" {
 		marker := o.MsgFunc
 		out = append(out, z.MessageFunc(func(is *z.ZogIssue, ctx z.Ctx) { is.SetMessage(marker) }))
+	}
+	if o.Msg != "" && o.MsgLast {
+		out = append(out, z.Message(o.Msg))
 	}
 	if o.Code != "" {
 		out = append(out, z.IssueCode(o.Code))
